@@ -827,6 +827,11 @@ func (g *vcgen) applyFunc(v ssa.Value, fn *ssa.Function, args []string, binds []
 	if res, ok := g.special(v, fn, args, c); ok {
 		return res
 	}
+	if g.safety && fn.Signature.Recv() != nil && len(args) > 0 && fn.Blocks != nil && g.eng.InModule(fn) {
+		if _, isPtr := fn.Signature.Recv().Type().Underlying().(*types.Pointer); isPtr {
+			g.obligeAt("safe/nil", "receiver of "+shortName(FullName(fn)), g.callSite("recv "+shortName(FullName(fn))), fmt.Sprintf("(not (= %s 0))", args[0]), "method call on a nil receiver")
+		}
+	}
 	if fc := g.eng.ContractOf(fn); fc != nil {
 		if fc.Flags["applies"] != "" && c != nil {
 			return g.applyApplier(fc, fn, args, binds, c)
